@@ -25,15 +25,32 @@ CLAIMS = {
  "C04": ("proof: executed layout is a Permutation of the registered systems for programs of any length, id table = executed list, "
          "groups never over capacity (constants re-read from the source, params_ok re-proved); tie: S1 (shape hook + identification run)",
          "per-dispatch run counts are the executor model's part", "invariant induction + differential correspondence", "5 C04"),
- "C10": ("S1 layouts + oracle skip_justified on every real layout (theorem in progress)", "see DESIGN", "differential correspondence", "5 C10"),
+ "C10": ("proof: C10_every_skipped_stage_is_forced for all registration programs (invariant `justified` carried through the whole "
+         "registration history: a skipped stage holds an earlier-registered conflicting system or a dependency sits in it or behind it), "
+         "corollary: compatible dependency-free systems share the first stage behind the barrier; max_threads = widest stage; tie: S1, "
+         "oracles `skip_justified` and `max_threads` on every REAL layout",
+         "genuine defect found and repaired (fix: f8d62d5): pre-barrier and repeated dependencies were never crossed off",
+         "invariant induction + differential correspondence", "5 C10"),
+ "C12": ("proof: thread-local list = thread-local registrations in order (all programs); in EVERY trace of the executor model the "
+         "thread-local windows come last, after every ordinary system has released, one at a time in registration order, on the "
+         "calling thread; sendable <=> no thread-local systems; tie: S1 (tl count/order, try_into_sendable outcome and preserved plan), "
+         "S2 (recorded traces with thread identity, hold mode)",
+         "KNOWN FINDING KF1 (listed in known_findings.json): thread-local systems of a builder passed to add_batch run on the pool "
+         "worker executing the batch; rayon modelled, not verified",
+         "trace-set theorems + differential correspondence", "5 C12"),
  "C18": ("proof: C18_builder_total_and_errors_exact: for programs of any length and nesting the model builder fails exactly when the "
          "name-bookkeeping specification says so, with that error; no capacity/index/unwrap/overflow/unreachable error reachable "
          "(params_ok re-proved for the constants in the source); tie: S1 incl. malformed stream, outcome + quoted name of every call",
          "panic message text is compared by the harness (prefix + quoted name)", "induction on program size + differential correspondence", "5 C18"),
- "C20": ("S1: printed text compared with the model's and with the real executed layout (theorem in progress)", "see DESIGN",
-         "differential correspondence", "5 C20"),
+ "C20": ("proof: C20_printed_text_is_the_executed_layout for all registration programs: the text of write_par_seq is the rendering "
+         "of the executed layout (boxed systems per stage/group/position) with each system shown by its sanitised name or the "
+         "placeholder of its id; printer total in the model; tie: S1 compares the REAL Debug text with the model text and evaluates "
+         "`print_matches` against the REAL executed layout (identification run)",
+         "genuine defect found and repaired (fix: 526450e): unnamed system => unwrap on None; thread-local systems have no "
+         "stage/group and are outside the text",
+         "invariant induction + differential correspondence", "5 C20"),
 }
-REGISTERED = ["C01", "C02", "C03", "C04", "C18"]
+REGISTERED = ["C01", "C02", "C03", "C04", "C10", "C12", "C18", "C20"]
 
 def main():
     props = [json.loads(l) for l in open(os.path.join(VERIF, "properties.jsonl"))]
@@ -61,7 +78,7 @@ def main():
                            kind_free_text="Coq 8.16 theorems about hand-written Gallina models + differential correspondence "
                                           "(Rust harness on the real crate vs extracted OCaml model) + boolean oracles on real observations")],
              checks=checks,
-             notes="fix: commits in /repo: 526450e (C20), f8d62d5 (C10); see known_findings.json and DESIGN.md",
+             notes="fix: commits in /repo: 526450e (C20), f8d62d5 (C10), 5f7fbf8 (C13); known finding KF1 (C12, C07); see known_findings.json and DESIGN.md",
              not_applicable=na)
     json.dump(m, open(os.path.join(VERIF, "MANIFEST.json"), "w"), indent=1)
     print("MANIFEST.json: %d checks" % len(checks))
